@@ -276,6 +276,15 @@ def _indexwrite(ck: Checker) -> None:
             files = c.args[1]
             lists = expand(prog, fn, files)
             tree_ok = False
+            if isinstance(files, ast.Name):
+                from ..an import collection_builds
+
+                for b in collection_builds(g, fn.node, files.id):
+                    if b.unconditional and norm(b.elt).endswith(".value"):
+                        for t in expand1(prog, fn, b.src):
+                            tt = norm(t)
+                            if lv in tt and ("dir_objs.get(" in tt or "Tree.load(" in tt):
+                                tree_ok = True
             for alt in lists:
                 if isinstance(alt, (ast.ListComp, ast.SetComp, ast.GeneratorExp)) and not alt.generators[0].ifs and norm(alt.elt).endswith(".value"):
                     for t in expand1(prog, fn, alt.generators[0].iter):
@@ -300,8 +309,23 @@ def _indexwrite(ck: Checker) -> None:
                     flags[n.iter.id] = s.value.value
     ck.require(flags.get("dir_hashes") is True and flags.get("file_hashes") is False, "C12.indexwrite", up, up.node,
                "update() stores True for directory hashes and False for file hashes", f"update() flag table is {flags}", construct="ObjectDBIndex.update flags")
-    txt = " ".join(norm(x) for x in walk_own(dh.node) if isinstance(x, (ast.GeneratorExp, ast.ListComp)))
-    ck.require("if is_dir" in txt and "self.index.items()" in txt, "C12.indexwrite", dh, dh.node, "dir_hashes() filters on the stored flag", f"dir_hashes() does not filter entries by the is-dir flag: {txt}")
+    okf = False
+    for x in walk_own(dh.node):
+        if isinstance(x, (ast.GeneratorExp, ast.ListComp)) and len(x.generators) == 1:
+            gen = x.generators[0]
+            if isinstance(gen.iter, ast.Call) and is_method_call(gen.iter, "items") and isinstance(gen.target, ast.Tuple) and len(gen.target.elts) == 2:
+                k, f = [norm(e) for e in gen.target.elts]
+                okf = norm(x.elt) == k and [norm(i) for i in gen.ifs] == [f]
+    gd = ck.cfg(dh)
+    for n in gd.nodes.values():
+        if n.loops and any(isinstance(y, ast.Yield) for e in ([n.ast] if n.ast is not None else []) for y in walk_expr(e)):
+            h = gd.nodes[n.loops[-1]]
+            if h.kind == "for" and isinstance(h.ast.iter, ast.Call) and is_method_call(h.ast.iter, "items") and isinstance(h.ast.target, ast.Tuple) and len(h.ast.target.elts) == 2:
+                k, f = [norm(e) for e in h.ast.target.elts]
+                ys = [y for y in walk_expr(n.ast) if isinstance(y, ast.Yield)]
+                w = cut(gd, [n.id], lambda t, lab, f=f: t.kind == "test" and norm(t.ast) == f and lab == "T", start=h.id)
+                okf = w is None and all(y.value is not None and norm(y.value) == k for y in ys)
+    ck.require(okf, "C12.indexwrite", dh, dh.node, "dir_hashes() yields exactly the keys whose stored flag is true", "dir_hashes() does not filter entries by the stored is-dir flag")
     # transfer side: shared with C04.index
     m = build_model(ck)
     gm = m.g
